@@ -837,13 +837,24 @@ def run_session(spec):
             c = step['col']
             new = [build(v, env) for v in step['cells']]
             new = [new[i % len(new)] for i in range(n)] if n else []
-            call('table[%r] = %s' % (c, short(new, 120)), d.__setitem__, c, list(new))
+            if step.get('cell') is not None and c in cols and n:
+                # a single cell written into the table's own column list (dictable hands out its lists): later queries must see it
+                i = step['cell'] % n
+                new = list(data[c][:i]) + [new[i]] + list(data[c][i + 1:])
+                target = dict.__getitem__(d, c)
+                for c2 in cols:                   # columns that ARE this list object (a table built on one list twice) change with it
+                    if c2 != c and dict.__getitem__(d, c2) is target:
+                        data[c2] = list(data[c2][:i]) + [new[i]] + list(data[c2][i + 1:])
+                call('table[%r][%i] = %s' % (c, i, short(new[i], 60)), lambda: target.__setitem__(i, new[i]))
+                labels.add('one_cell_edited_in_place_between_calls')
+            else:
+                call('table[%r] = %s' % (c, short(new, 120)), d.__setitem__, c, list(new))
             data[c] = new
             if c not in cols:
                 cols.append(c)
             if sorted(d.keys()) != sorted(cols) or len(d) != n:
                 raise RuntimeError('builder: after table[%r] = ... the table has shape %s' % (c, (len(d), d.keys())))
-            history.append('table[%r] = %s' % (c, short(new, 60)))
+            history.append(('table[%r][%i] = %s' % (c, step['cell'] % n, short(new[step['cell'] % n], 60))) if step.get('cell') is not None and n else 'table[%r] = %s' % (c, short(new, 60)))
             updates += 1
             continue
         scols = sorted(cols)
@@ -1255,7 +1266,18 @@ def _session_case(draw, tier):
             fl = draw(_FLAVOUR)
             m = n if not t.get('tile') else draw(st.integers(1, 5))
             cells = [draw(_CELL)] * max(m, 1) if fl == 'const' else draw(st.lists(_FLAVOURS[fl], min_size=max(m, 1), max_size=max(m, 1)))
-            steps.append(dict(op='set', col=c, cells=cells))
+            step = dict(op='set', col=c, cells=cells)
+            if c in cols and n and draw(st.booleans()):
+                step['cell'] = draw(st.integers(0, n - 1))       # ONE cell is edited in the column's own list, table[col][i] = v: the only way to change a single cell
+                repeat = True                                      # and the query made before it is made again
+                if last['cond']['kind'] == 'filters':
+                    # half of these edits write a value the previous query's condition on that column admits (the row may join the selection), the others one it does not
+                    adm = [p if k == 'val' else (p[0] if p else None) for cc, k, p in last['cond']['conds'] if cc == c and k in ('val', 'list')]
+                    if adm and draw(st.booleans()):
+                        step['cells'] = [adm[0]]
+                    elif adm:
+                        step['cells'] = ['zz']
+            steps.append(step)
             continue
         k = draw(st.integers(1, len(base)))
         chosen = base[:k]
@@ -1351,7 +1373,7 @@ SUBS = [
              'or differ in one value only, mostly in one form; a third of the sessions also use two callables of one shape over the same columns, made by ONE factory (one code object). The condition objects - values, lists, '
              'patterns, dicts (one per content), callables - are made once and the same objects go into every call that uses them. oracle: every call judged on its own by the single-call reference model on the '
              'table\'s content at that moment (original content of the containers), table untouched by queries, results never the table itself. non-trivial = at least one row, two or more queries, not all with the same expected result',
-        floor=0.3, class_floors={'queries=2': 0.1, 'queries=3': 0.14, 'queries=4': 0.06, 'table_updated_between_calls': 0.05, 'same_call_after_update_gives_other_rows': 0.009, 'filters_and_callable_in_one_session': 0.07, 'callable_object_used_in_several_calls': 0.03, 'callables_made_by_one_factory': 0.02, 'callables_made_by_one_factory:select_different_rows': 0.009, 'same_condition_in_several_calls': 0.18, 'same_conditions_in_another_order': 0.008, 'same_columns_other_values': 0.1, 'same_columns_other_values:other_rows': 0.027, 'conditions_extended_or_cut_back': 0.09, 'columns_extended_or_cut_back': 0.065, 'dict_object_passed_to_several_calls': 0.12, 'inf_cell_under_nan_condition': 0.02, 'callable_step': 0.08, 'large': 0.025, 'form=split': 0.03, 'form=dicts': 0.03, 'form=dict_twice': 0.06, 'find:multiple_values': 0.012, 'find:single_row': 0.018, 'find:none_selected': 0.07, 'find:unique_from_many': 0.013}),
+        floor=0.3, class_floors={'one_cell_edited_in_place_between_calls': 0.01, 'queries=2': 0.1, 'queries=3': 0.14, 'queries=4': 0.06, 'table_updated_between_calls': 0.05, 'same_call_after_update_gives_other_rows': 0.009, 'filters_and_callable_in_one_session': 0.07, 'callable_object_used_in_several_calls': 0.03, 'callables_made_by_one_factory': 0.02, 'callables_made_by_one_factory:select_different_rows': 0.009, 'same_condition_in_several_calls': 0.18, 'same_conditions_in_another_order': 0.008, 'same_columns_other_values': 0.1, 'same_columns_other_values:other_rows': 0.027, 'conditions_extended_or_cut_back': 0.09, 'columns_extended_or_cut_back': 0.065, 'dict_object_passed_to_several_calls': 0.12, 'inf_cell_under_nan_condition': 0.02, 'callable_step': 0.08, 'large': 0.025, 'form=split': 0.03, 'form=dicts': 0.03, 'form=dict_twice': 0.06, 'find:multiple_values': 0.012, 'find:single_row': 0.018, 'find:none_selected': 0.07, 'find:unique_from_many': 0.013}),
     EnumSub('small_enum', enum_small, run_partition, thorough_only=True, chunks=64,
             rule='every 1-column table of 0-%i rows over the pool %s x %i single-column conditions x {keyword, dict}; same oracle as filters'
                  % (ENUM_MAX_ROWS, ENUM_POOL, len(ENUM_CONDS))),
